@@ -477,7 +477,7 @@ CONNECT) then a generated API call mix. Oracle: no panic, termination decided by
             Api::Json,
             Api::TextReader(7),
         ];
-        let endless = (0..18u8).flat_map(move |kind| apis.clone().into_iter().map(move |api| Case::Endless { kind, api }));
+        let endless = (0..20u8).flat_map(move |kind| apis.clone().into_iter().map(move |api| Case::Endless { kind, api }));
         Some(Box::new(
             alpha
                 .chain(endless)
@@ -659,6 +659,29 @@ CONNECT) then a generated API call mix. Oracle: no panic, termination decided by
                     15 => ("http://origin.test/", None, vec![vec![Ev::Endless(b"HTTP/1.1 100 Continue\r\n\r\n".to_vec())]], k16 + k8, None, "endless:interim-100-heads"),
                     16 => ("http://origin.test/", None, vec![vec![Ev::Endless(b"HTTP/1.1 103 Early Hints\r\nLink: </a>; rel=preload\r\n\r\n".to_vec())]], k16 + k8, None, "endless:interim-103-heads"),
                     17 => ("http://origin.test/", Some("http://proxy.test:3128"), vec![vec![Ev::Endless(b"HTTP/1.1 102 Processing\r\n\r\n".to_vec())]], k16 + k8, None, "endless:interim-102-heads-via-proxy"),
+                    // a redirect whose own body never ends: following needs the head only
+                    18 => (
+                        "http://origin.test/",
+                        None,
+                        vec![
+                            vec![Ev::Data(b"HTTP/1.1 302 Found\r\nLocation: /next\r\n\r\n".to_vec()), Ev::Endless(b"z".to_vec())],
+                            vec![Ev::Data(b"HTTP/1.1 200 OK\r\nContent-Length: 2\r\n\r\nok".to_vec()), Ev::Eof],
+                        ],
+                        k16 + k8,
+                        None,
+                        "endless:redirect-body",
+                    ),
+                    19 => (
+                        "http://origin.test/",
+                        None,
+                        vec![
+                            vec![Ev::Data(b"HTTP/1.1 307 Temporary Redirect\r\nLocation: /next\r\nTransfer-Encoding: chunked\r\n\r\n".to_vec()), Ev::Endless(b"1\r\nz\r\n".to_vec())],
+                            vec![Ev::Data(b"HTTP/1.1 200 OK\r\nContent-Length: 2\r\n\r\nok".to_vec()), Ev::Eof],
+                        ],
+                        k16 + k8,
+                        None,
+                        "endless:redirect-body-chunked",
+                    ),
                     _ => (
                         "http://origin.test/",
                         None,
@@ -673,6 +696,9 @@ CONNECT) then a generated API call mix. Oracle: no panic, termination decided by
                 bound_desc = format!("{bound}");
                 // the transport limit is the bound plus slack for one more buffered read
                 run = drive(url, proxy, scripts, bound, api, mh);
+                if (*kind == 18 || *kind == 19) && run.dials != 2 {
+                    return Outcome::fail(format!("C05:{label}:not-followed"), format!("a redirect with an endless body of its own: {} connection(s), error {}", run.dials, run.err));
+                }
                 if *kind == 6 && run.dials != 6 {
                     return Outcome::fail("C05:redirect-chain-unbounded", format!("an endless redirect chain caused {} exchanges (max_redirections is 5)", run.dials));
                 }
